@@ -91,6 +91,8 @@ def run_real(repo: str, desc: dict, strace: dict | None = None) -> dict:
                "PYTHONDONTWRITEBYTECODE": "1", "LC_ALL": "C.UTF-8", "HOME": root,
                "PYTHONIOENCODING": desc["knobs"].get("stdout_encoding", "utf-8") + ":strict"}
         cmd = [PY312, "-m", "oneliner"] + list(desc["argv"])
+        if desc["knobs"].get("stderr_closed"):
+            cmd = ["sh", "-c", 'exec "$@" 2>&-', "sh"] + cmd
         if strace:
             target = os.path.normpath(os.path.join(root, strace["path"]))
             cmd = ["strace", "-f", "-o", "/dev/null", "-P", target, "-P", strace["path"], "-e", "trace=" + strace["syscall"],
@@ -226,7 +228,7 @@ def signature_of(desc, vclass, viols=()) -> str:
         for v in viols:
             if _vc(v) == vclass:
                 return "P2/%s/prog=%s/%s" % (vclass[1], v.get("prog"), "/".join(v.get("names") or []))
-    cl = sorted({it["cls"] + ((":" + it["name"]) if it["cls"] == "unknown_name" and it.get("name") in c16.ATTR_NAMES else "")
+    cl = sorted({it["cls"] + ((":" + it["name"]) if it["cls"] == "unknown_name" and (it.get("name") in c16.ATTR_NAMES or it.get("name", "").startswith("_")) else "")
                  for it in desc["items"]}) or ["none"]
     faults = sorted({"%s:%s" % (f.get("op"), f["kind"]) for f in desc.get("plan") or []})
     inp = desc.get("special") or ("pool" if desc.get("prog") else desc.get("in_state"))
